@@ -68,6 +68,10 @@ C10(pat, j) ==
       [] pat = "south" -> <<6, 5, 5, 10, 6, 5>>[j]   \* same cosines, negative latitudes
 
 P(c) == Len(c.s2)
+\* number of features of the concrete matrix: "perm" one per mode; "rand" one
+\* more than the number of modes, or more features than samples ("wide")
+PFeat(c) == IF c.kind = "perm" THEN Len(c.s2) ELSE IF c.wide THEN c.n + 3 ELSE Len(c.s2) + 1
+MinDim(c) == IF c.n < PFeat(c) THEN c.n ELSE PFeat(c)
 Base(c, j) == IF c.std THEN (IF c.s2[j] > 0 THEN 1 ELSE 0) ELSE c.s2[j]
 Energy(c, j) == Base(c, j) * W4(c.wp, j) * C10(c.lp, j)
 Energies(c) == [j \in 1..P(c) |-> Energy(c, j)]
@@ -85,17 +89,27 @@ Rank(c) == Cardinality({j \in 1..P(c) : Energy(c, j) > 0})
 \* init_rank_reduction irr = <<in, id>>:  the first `pre` modes are computed,
 \* pre = max(1, floor(min(n, p) * irr)); the smallest count whose cumulative
 \* explained variance reaches f is kept, all `pre` (with a warning) if none does
-Pre(c) == LET m == IF c.n < P(c) THEN c.n ELSE P(c)
+Pre(c) == LET m == MinDim(c)
               q == (m * c.irr[1]) \div c.irr[2]
           IN  IF q < 1 THEN 1 ELSE q
 Cum(c, i) == LET o == Order(c) IN SumSeq([t \in 1..i |-> Energy(c, o[t])])
 Tot(c) == SumSeq(Energies(c))
-Reached(c, i) == Cum(c, i) * c.frac[2] >= c.frac[1] * Tot(c)
-OnBoundary(c) == \E i \in 1..P(c) : Cum(c, i) * c.frac[2] = c.frac[1] * Tot(c)
+CumX(c, i) == IF i <= P(c) THEN Cum(c, i) ELSE Tot(c)       \* modes beyond the data's rank carry nothing
+Reached(c, i) == CumX(c, i) * c.frac[2] >= c.frac[1] * Tot(c)
+OnBoundary(c) == \E i \in 1..MinDim(c) : CumX(c, i) * c.frac[2] = c.frac[1] * Tot(c)
 FracCount(c) == IF \E i \in 1..Pre(c) : Reached(c, i)
                 THEN CHOOSE i \in 1..Pre(c) : Reached(c, i) /\ \A t \in 1..(i - 1) : ~Reached(c, t)
                 ELSE Pre(c)
 FracWarns(c) == ~ \E i \in 1..Pre(c) : Reached(c, i)
+
+\* C15: which SVD routine may run.  "full" is the exact LAPACK SVD; the
+\* randomised family is randomized_svd (real, in memory), svds/lobpcg (complex)
+\* or svd_compressed (dask); "auto" may only choose between the exact routine
+\* and the randomised one for the data at hand.
+Randomised(c) == IF c.dtype = "complex" THEN "svds" ELSE "randomized"
+Branches(c) == CASE c.solver = "full" -> {"exact"}
+                 [] c.solver = "randomized" -> {Randomised(c)}
+                 [] c.solver = "auto" -> {"exact", Randomised(c)}
 
 IsFrac(c) == c.frac[2] # 0
 K(c) == IF IsFrac(c) THEN FracCount(c) ELSE c.k
@@ -103,16 +117,19 @@ K(c) == IF IsFrac(c) THEN FracCount(c) ELSE c.k
 Predict(c) ==
     LET o == Order(c)
         k == K(c)
-        sv2 == [i \in 1..k |-> Energy(c, o[i])]
+        sv2 == [i \in 1..k |-> IF i <= P(c) THEN Energy(c, o[i]) ELSE 0]
     IN  [sv2  |-> sv2,
          tot  |-> Tot(c),
-         feat |-> [i \in 1..k |-> o[i]],
-         tie  |-> [i \in 1..k |-> \/ (i > 1 /\ Energy(c, o[i - 1]) = Energy(c, o[i]))
-                                  \/ (i < P(c) /\ Energy(c, o[i + 1]) = Energy(c, o[i]))],
+         feat |-> [i \in 1..k |-> IF i <= P(c) THEN o[i] ELSE 0],
+         tie  |-> [i \in 1..k |-> \/ i > P(c)
+                                  \/ (i > 1 /\ Energy(c, o[i - 1]) = Energy(c, o[i]))
+                                  \/ (i < P(c) /\ Energy(c, o[i + 1]) = Energy(c, o[i]))
+                                  \/ (i = P(c) /\ PFeat(c) > P(c) /\ Energy(c, o[i]) = 0)],
          err2 |-> Tot(c) - SumSeq(sv2),
          rank |-> Rank(c),
          k    |-> k,
          warn |-> IsFrac(c) /\ FracWarns(c),
+         branches |-> Branches(c),
          kappaUnits |-> c.std]
 
 -----------------------------------------------------------------------------
@@ -122,7 +139,8 @@ Admissible(c) ==
     /\ (c.std /\ c.cexp # 0) => \A j \in 1..P(c) : c.s2[j] > 0   \* a constant feature has std 0 < floor: at 1e8
                                                  \* the rounding error of its mean is amplified by 1/floor
     /\ c.kind = "rand" => (c.wp = "ones" /\ c.lp = "none" /\ ~c.std)
-    /\ c.k \in 1..(IF c.n < P(c) THEN c.n ELSE P(c))
+    /\ c.k \in 1..P(c)
+    /\ c.wide => c.kind = "rand"
     /\ IsFrac(c) => (c.k = 1 /\ ~OnBoundary(c) /\ Tot(c) > 0 /\ c.center)
     /\ ~IsFrac(c) => c.irr = <<1, 1>>
     /\ c.rel = "shift" => c.center
@@ -143,11 +161,11 @@ Init ==
     /\ pred = [k |-> 0]
     /\ \E n \in Ns, s2 \in Spectra, center \in BOOLEAN, std \in BOOLEAN, wp \in WPatterns, lp \in LPatterns,
           frac \in Fracs, irr \in Irrs, kind \in Kinds, rel \in Rels, dtype \in Dtypes, solver \in Solvers,
-          cexp \in Cexps :
+          cexp \in Cexps, wide \in BOOLEAN :
           \E k \in 1..Len(s2) :
              /\ cfg = [n |-> n, s2 |-> s2, center |-> center, std |-> std, wp |-> wp, lp |-> lp,
                        k |-> k, frac |-> frac, irr |-> irr, kind |-> kind, rel |-> rel,
-                       dtype |-> dtype, solver |-> solver, cexp |-> cexp]
+                       dtype |-> dtype, solver |-> solver, cexp |-> cexp, wide |-> wide]
              /\ Admissible(cfg)
 
 Fit == /\ phase = "cfg"
@@ -176,16 +194,21 @@ C01_VarianceIdentity ==
 \* C01: Eckart-Young in this world - no other choice of k features leaves a
 \* smaller residual than the leading k
 C01_EckartYoung ==
-    Done => \A S \in kSubset(pred.k, 1..P(cfg)) :
+    (Done /\ pred.k <= P(cfg)) => \A S \in kSubset(pred.k, 1..P(cfg)) :
                pred.tot - SumSeq([i \in 1..pred.k |-> Energy(cfg, SetToSeq(S)[i])]) >= pred.err2
 
 \* C15: the fractional count is minimal, and the warning is raised exactly
 \* when the fraction cannot be reached among the precomputed modes
 C15_ThresholdMinimal ==
     (Done /\ IsFrac(cfg)) =>
-        /\ pred.k \in 1..Pre(cfg)
+        /\ pred.k \in 1..Pre(cfg) /\ pred.k <= MinDim(cfg)
         /\ (~pred.warn) => (Reached(cfg, pred.k) /\ \A t \in 1..(pred.k - 1) : ~Reached(cfg, t))
         /\ pred.warn => (pred.k = Pre(cfg) /\ ~Reached(cfg, Pre(cfg)))
+
+C15_AutoIsOneOfTwo ==
+    Done => /\ pred.branches \subseteq {"exact", "randomized", "svds"}
+            /\ (cfg.solver = "auto") => pred.branches = {"exact", Randomised(cfg)}
+            /\ (cfg.solver = "full") => pred.branches = {"exact"}
 
 \* C08: relations between two configurations.  The harness builds both inputs
 \* and fits both; here the world's formulas are shown to respect the law.
